@@ -131,36 +131,54 @@ func CompareAndSwapInt32(p *int32, o, n int32) bool {
 	point(KCAS)
 	ok := atomic.CompareAndSwapInt32(p, o, n)
 	casResult(ok)
+	if ok {
+		point(KAfterCAS)
+	}
 	return ok
 }
 func CompareAndSwapInt64(p *int64, o, n int64) bool {
 	point(KCAS)
 	ok := atomic.CompareAndSwapInt64(p, o, n)
 	casResult(ok)
+	if ok {
+		point(KAfterCAS)
+	}
 	return ok
 }
 func CompareAndSwapUint32(p *uint32, o, n uint32) bool {
 	point(KCAS)
 	ok := atomic.CompareAndSwapUint32(p, o, n)
 	casResult(ok)
+	if ok {
+		point(KAfterCAS)
+	}
 	return ok
 }
 func CompareAndSwapUint64(p *uint64, o, n uint64) bool {
 	point(KCAS)
 	ok := atomic.CompareAndSwapUint64(p, o, n)
 	casResult(ok)
+	if ok {
+		point(KAfterCAS)
+	}
 	return ok
 }
 func CompareAndSwapUintptr(p *uintptr, o, n uintptr) bool {
 	point(KCAS)
 	ok := atomic.CompareAndSwapUintptr(p, o, n)
 	casResult(ok)
+	if ok {
+		point(KAfterCAS)
+	}
 	return ok
 }
 func CompareAndSwapPointer(p *unsafe.Pointer, o, n unsafe.Pointer) bool {
 	point(KCAS)
 	ok := atomic.CompareAndSwapPointer(p, o, n)
 	casResult(ok)
+	if ok {
+		point(KAfterCAS)
+	}
 	return ok
 }
 
@@ -207,6 +225,9 @@ func (x *Value) CompareAndSwap(o, n any) bool {
 	point(KCAS)
 	ok := x.v.CompareAndSwap(o, n)
 	casResult(ok)
+	if ok {
+		point(KAfterCAS)
+	}
 	return ok
 }
 
@@ -222,6 +243,9 @@ func (x *Int32) CompareAndSwap(o, n int32) bool {
 	point(KCAS)
 	ok := x.v.CompareAndSwap(o, n)
 	casResult(ok)
+	if ok {
+		point(KAfterCAS)
+	}
 	return ok
 }
 
@@ -237,6 +261,9 @@ func (x *Int64) CompareAndSwap(o, n int64) bool {
 	point(KCAS)
 	ok := x.v.CompareAndSwap(o, n)
 	casResult(ok)
+	if ok {
+		point(KAfterCAS)
+	}
 	return ok
 }
 
@@ -252,6 +279,9 @@ func (x *Uint32) CompareAndSwap(o, n uint32) bool {
 	point(KCAS)
 	ok := x.v.CompareAndSwap(o, n)
 	casResult(ok)
+	if ok {
+		point(KAfterCAS)
+	}
 	return ok
 }
 
@@ -267,6 +297,9 @@ func (x *Uint64) CompareAndSwap(o, n uint64) bool {
 	point(KCAS)
 	ok := x.v.CompareAndSwap(o, n)
 	casResult(ok)
+	if ok {
+		point(KAfterCAS)
+	}
 	return ok
 }
 
@@ -280,6 +313,9 @@ func (x *Uintptr) CompareAndSwap(o, n uintptr) bool {
 	point(KCAS)
 	ok := x.v.CompareAndSwap(o, n)
 	casResult(ok)
+	if ok {
+		point(KAfterCAS)
+	}
 	return ok
 }
 
@@ -292,6 +328,9 @@ func (x *Bool) CompareAndSwap(o, n bool) bool {
 	point(KCAS)
 	ok := x.v.CompareAndSwap(o, n)
 	casResult(ok)
+	if ok {
+		point(KAfterCAS)
+	}
 	return ok
 }
 
@@ -304,6 +343,9 @@ func (x *Pointer[T]) CompareAndSwap(o, n *T) bool {
 	point(KCAS)
 	ok := x.v.CompareAndSwap(o, n)
 	casResult(ok)
+	if ok {
+		point(KAfterCAS)
+	}
 	return ok
 }
 
